@@ -6,9 +6,11 @@ MIN_OBLIGATIONS = 50
 TRUSTED = hc.HANDLER_TRUSTED + ["A-MM: Schema.dump as modelled in pyvc/mmalgo.py"]
 ASSUMPTIONS = ["message is a Message whose command is 0..4 (what the codec accepts), or an object without message attributes",
                "ghost counter wcnt[m] is incremented by a sidecar ghost statement after Transport.write returns in the outgoing handlers",
-               "'handed to the transport at the next wake' is the flush contract of C07 applied to the parked entry"]
+               "'handed to the transport at the next wake' is the release contract (contracts/handlers_c.py, clauses each-released-once and "
+               "unwritten-stay, which carry C12's id) proved on the release loop of 2.0-2.2; that every wake message reaches the release is C07's"]
 EXPLANATION = ("Gateway.send is executed per protocol version against the trichotomy contract (written / parked for a sleeping "
-               "destination / library error) with the outgoing handlers replaced by their contracts, which are proved on their bodies.")
+               "destination / library error) with the outgoing handlers replaced by their contracts, which are proved on their bodies; "
+               "the release of held commands at a wake is proved against the clauses that say every held command is written once or stays held.")
 
 
 def build(world):
